@@ -768,6 +768,19 @@ class Engine:
                 st.heap[vd] = z3.Store(self.harr(st, vd), r, self.harr(st, vs)[sv.term])
                 st.heap[nd] = z3.Store(self.harr(st, nd), r, self.harr(st, ns)[sv.term])
                 return SV(kind, z3.If(sv.term == 0, 0, r) if k.nullable else r)
+            if kind.k == k.k and kind.v is KVal and (k.v in (KFloat, KInt, KStr, KBool) or isinstance(k.v, KEnum)) and not k.region:
+                # typed values seen as dynamic values: same keys, boxed values
+                r = self.alloc(st)
+                hs, vs, ns = self.dnames(k)
+                hd, vd, nd = self.dnames(kind)
+                st.heap[hd] = z3.Store(self.harr(st, hd), r, self.harr(st, hs)[sv.term])
+                st.heap[nd] = z3.Store(self.harr(st, nd), r, self.harr(st, ns)[sv.term])
+                va = st.fresh("boxd", z3.ArraySort(sort_of(kind.k), sort_of(kind.v)))
+                kk = z3.Const("boxd_k", sort_of(kind.k))
+                src = self.harr(st, vs)[sv.term]
+                st.assume(qforall([kk], va[kk] == self.box(st, SV(k.v, src[kk])).term, patterns=[va[kk]]), quantified=True)
+                st.heap[vd] = z3.Store(self.harr(st, vd), r, va)
+                return SV(kind, r)
             if kind.k == k.k and k.v is KVal and kind.v in (KFloat, KInt, KStr, KBool) and not k.region:
                 # dynamic values stored where typed values are declared (JSON numbers): same keys, unboxed values
                 r = self.alloc(st)
